@@ -10,6 +10,7 @@ package main
 
 import (
 	"context"
+	"errors"
 	"encoding/binary"
 	"fmt"
 	"math"
@@ -35,11 +36,18 @@ type tx = *chain.Transaction
 
 // stub inner DSMR
 type stubDSMR struct {
-	built [][]tx
-	next  [][]tx // chunks of the block being accepted
+	built    [][]tx
+	next     [][]tx // chunks of the block being accepted
+	failNext bool   // the next inner BuildChunk fails (rate limit, duplicate chunk, signing error)
 }
 
+var errInner = errors.New("inner DSMR refused the chunk")
+
 func (s *stubDSMR) BuildChunk(_ context.Context, txs []tx, _ int64, _ codec.Address) error {
+	if s.failNext {
+		s.failNext = false
+		return errInner
+	}
 	s.built = append(s.built, append([]tx{}, txs...))
 	return nil
 }
@@ -93,6 +101,8 @@ type op struct {
 	kind opKind
 	list []int // tx indices (build: submitted list; accept: accepted transactions)
 	ts   int64
+	rate uint64
+	fail bool // build: the inner DSMR refuses the chunk after the transactions were bonded
 	name string
 }
 
@@ -136,7 +146,12 @@ func init() {
 		for _, i := range l {
 			n = append(n, txDefs[i].name)
 		}
-		ops = append(ops, op{kind: oBuild, list: l, name: "build-chunk[" + strings.Join(n, ",") + "]"})
+		for _, rate := range []uint64{1, 3} {
+			ops = append(ops, op{kind: oBuild, list: l, rate: rate, name: fmt.Sprintf("build-chunk[%s]@rate%d", strings.Join(n, ","), rate)})
+		}
+		if len(l) <= 2 {
+			ops = append(ops, op{kind: oBuild, list: l, rate: 1, fail: true, name: "build-chunk[" + strings.Join(n, ",") + "]@rate1, inner DSMR refuses"})
+		}
 	}
 	for _, ts := range []int64{5000, 10001, 25000} {
 		for _, l := range [][]int{{}, {0}, {1}, {2}, {0, 1, 2}} {
@@ -147,11 +162,9 @@ func init() {
 			ops = append(ops, op{kind: oAccept, list: l, ts: ts, name: fmt.Sprintf("accept(ts=%d, txs=[%s])", ts, strings.Join(n, ","))})
 		}
 	}
-	for _, r := range []uint64{1, 3} {
-		for ma := 0; ma < 6; ma++ {
-			for _, mb := range []int{1, 4} {
-				configs = append(configs, config{ma, mb, r})
-			}
+	for ma := 0; ma < 6; ma++ {
+		for _, mb := range []int{1, 4} {
+			configs = append(configs, config{ma, mb, 1})
 		}
 	}
 }
@@ -161,7 +174,7 @@ func hist(h []int) []string {
 	for i, x := range h {
 		if i == 0 {
 			c := configs[x]
-			out = append(out, fmt.Sprintf("config(max A=%s, max B=%s, fee rate=%d)", maxNames[c.maxA], maxNames[c.maxB], c.rate))
+			out = append(out, fmt.Sprintf("config(max A=%s, max B=%s in units of the rate-1 fees)", maxNames[c.maxA], maxNames[c.maxB]))
 			continue
 		}
 		out = append(out, ops[x].name)
@@ -213,7 +226,7 @@ func exec(h []int) seqx.Result {
 			var want []int
 			for _, i := range o.list {
 				in = append(in, txs[i])
-				fee := uint64(txs[i].Size()) * cfg.rate
+				fee := uint64(txs[i].Size()) * o.rate
 				if _, dup := bonded[i]; dup {
 					want = append(want, i) // already bonded: still covered by its bond
 					continue
@@ -225,7 +238,16 @@ func exec(h []int) seqx.Result {
 				}
 			}
 			nb := len(inner.built)
-			if err := node.BuildChunk(ctx, mut, in, 30000, codec.EmptyAddress, cfg.rate); err != nil {
+			inner.failNext = o.fail
+			err := node.BuildChunk(ctx, mut, in, 30000, codec.EmptyAddress, o.rate)
+			if o.fail {
+				if !errors.Is(err, errInner) {
+					return viol("inner-error-swallowed", fmt.Sprintf("step %d %s: BuildChunk returned %v", step, o.name, err))
+				}
+				outcome = "build-refused-by-inner"
+				break
+			}
+			if err != nil {
 				return viol("build-error", fmt.Sprintf("step %d %s: %v", step, o.name, err))
 			}
 			if len(inner.built) != nb+1 {
@@ -346,6 +368,6 @@ func main() {
 	r.Cov["frontier_unexpanded_at_bound"] = st.Frontier
 	r.Cov["bounds"] = map[string]any{"depth_incl_config": depth, "configs": len(configs), "ops": len(ops), "txs": len(txs), "sponsors": 2}
 	r.Cov["explanation"] = "every transition runs the real fdsmr.Node + internal/chain.Bonder on a fresh memdb with the history replayed; state key = bonder database content + pending-expiry heap layout + configuration"
-	r.Assumptions = []string{"one fee rate per history (a re-submission at a different rate has no defined expected fee)", "inner DSMR is a stub that accepts exactly the chunks the harness names", "3 transactions, 2 sponsors"}
+	r.Assumptions = []string{"a bonded transaction keeps the fee it was bonded with; re-submission (at any rate) does not re-bond it", "inner DSMR is a stub that accepts exactly the chunks the harness names", "3 transactions, 2 sponsors"}
 	r.Finish()
 }
